@@ -1,1 +1,161 @@
-//! Reference models for the misc monitors.
+//! Reference models for C18 (PKGNAME decomposition), C19 (PKGPATH rule) and
+//! C20 (metadata file-name table), written from the property statements.
+
+// ---------------------------------------------------------------------------
+// C18
+// ---------------------------------------------------------------------------
+
+/// Split at the last '-': (base, version); the whole string and an empty
+/// version when there is none.  (Own byte scan; '-' is ASCII so the cut is
+/// always on a character boundary.)
+pub fn split_last_dash(name: &str) -> (&str, &str) {
+    let b = name.as_bytes();
+    let mut i = b.len();
+    while i > 0 {
+        i -= 1;
+        if b[i] == b'-' {
+            return (&name[..i], &name[i + 1..]);
+        }
+    }
+    (name, "")
+}
+
+#[derive(Clone, Copy, Debug, PartialEq, Eq)]
+pub enum Revision {
+    /// The version ends in `nb<digits>` (1..=18 digits): that number.
+    Ends(i64),
+    /// The version contains no `nb` in any letter case: none.
+    NoNb,
+    /// Anything else (`1nb3alpha`, `1.0nb`, `1.0NB3`, more than 18 digits):
+    /// the statement does not say.
+    Unspecified,
+}
+
+pub fn revision(version: &str) -> Revision {
+    let b = version.as_bytes();
+    let mut i = b.len();
+    while i > 0 && b[i - 1].is_ascii_digit() {
+        i -= 1;
+    }
+    let ndigits = b.len() - i;
+    if ndigits >= 1 && i >= 2 && &b[i - 2..i] == b"nb" {
+        if ndigits > 18 {
+            return Revision::Unspecified;
+        }
+        let mut n: i64 = 0;
+        for &d in &b[i..] {
+            n = n * 10 + (d - b'0') as i64;
+        }
+        return Revision::Ends(n);
+    }
+    let has_nb_any_case = b.windows(2).any(|w| w.eq_ignore_ascii_case(b"nb"));
+    if has_nb_any_case {
+        Revision::Unspecified
+    } else {
+        Revision::NoNb
+    }
+}
+
+pub fn count_nb(s: &str) -> usize {
+    s.as_bytes().windows(2).filter(|w| w == b"nb").count()
+}
+
+pub fn count_dashes(s: &str) -> usize {
+    s.bytes().filter(|&b| b == b'-').count()
+}
+
+// ---------------------------------------------------------------------------
+// C19
+// ---------------------------------------------------------------------------
+
+#[derive(Clone, Debug, PartialEq, Eq)]
+pub struct Norm<'a> {
+    pub absolute: bool,
+    pub segs: Vec<&'a str>,
+}
+
+/// Segment normaliser: split on '/'; a leading '/' makes the path absolute;
+/// empty segments (repeated and trailing slashes) are dropped; '.' segments
+/// are dropped except a leading one.  Deliberately not `std::path`.
+pub fn normalise(s: &str) -> Norm<'_> {
+    let absolute = s.as_bytes().first() == Some(&b'/');
+    let mut segs: Vec<&str> = vec![];
+    for seg in s.split('/') {
+        if seg.is_empty() {
+            continue;
+        }
+        if seg == "." && (!segs.is_empty() || absolute) {
+            continue;
+        }
+        segs.push(seg);
+    }
+    Norm { absolute, segs }
+}
+
+fn ordinary(seg: &str) -> bool {
+    !seg.is_empty() && seg != "." && seg != ".."
+}
+
+/// `Some((category, package))` iff the statement's rule accepts the string.
+pub fn pkgpath_rule(s: &str) -> Option<(&str, &str)> {
+    let n = normalise(s);
+    if n.absolute {
+        return None;
+    }
+    match n.segs.as_slice() {
+        [c, p] if ordinary(c) && ordinary(p) => Some((c, p)),
+        ["..", "..", c, p] if ordinary(c) && ordinary(p) => Some((c, p)),
+        _ => None,
+    }
+}
+
+/// Component-shape class for the evidence histogram: `P` = `..`, `D` = a
+/// leading `.`, `N` = name; more than six components collapse to `long`.
+pub fn shape(s: &str) -> String {
+    let n = normalise(s);
+    let mut out = String::new();
+    if n.absolute {
+        out.push_str("abs:");
+    }
+    if n.segs.len() > 6 {
+        out.push_str("long");
+        return out;
+    }
+    if n.segs.is_empty() {
+        out.push_str("empty");
+    }
+    for seg in &n.segs {
+        out.push(match *seg {
+            ".." => 'P',
+            "." => 'D',
+            _ => 'N',
+        });
+    }
+    out
+}
+
+// ---------------------------------------------------------------------------
+// C20
+// ---------------------------------------------------------------------------
+
+/// The 14 '+' files of a package, in the order of `pkgsrc::MetadataEntry`'s
+/// variants (names from the pkg_install documentation).
+pub const META_FILES: [&str; 14] = [
+    "+BUILD_INFO",
+    "+BUILD_VERSION",
+    "+COMMENT",
+    "+CONTENTS",
+    "+DEINSTALL",
+    "+DESC",
+    "+DISPLAY",
+    "+INSTALL",
+    "+INSTALLED_INFO",
+    "+MTREE_DIRS",
+    "+PRESERVE",
+    "+REQUIRED_BY",
+    "+SIZE_ALL",
+    "+SIZE_PKG",
+];
+
+/// Indices of the three mandatory files in `META_FILES`.
+pub const MANDATORY: [usize; 3] = [2, 3, 5];
